@@ -74,3 +74,76 @@ Theorem FT_builder_guards :
    | [(_, ("", "rr_hints", "ttl", "ttl", "land(HINT,M)")); (_, ("", "rr_hints", "rdata_index", "rdata", "land(HINT,M)"))] => true | _ => false end) = true.
 Proof. vm_compute. reflexivity. Qed.
 Print Assumptions FT_builder_guards.
+
+(* ---------- how the record accessors fill a generic record (Gen_genread.v, translator/genread.py) ----------
+   Exporter.gen_qr / gen_aec / gen_mm / gen_qs / gen_rrs were written after these rows: which table a stored index is resolved in
+   (get_ip_address = table 0, get_classtype = 1, get_name_rdata = 2, get_qr_signature = 3, get_question_list = 4, get_question = 5,
+   get_rr_list = 6, get_rr = 7, get_malformed_message_data = 8: the positions of tl_get), under which presence test, and which members are
+   copied as they are *)
+Require Import Gen_genread.
+Definition generic_readers_expected : list (string * (string * string * string)) := [
+  ("qr", ("ts", "", "qr.time_offset"));
+  ("qr", ("client_ip", "qr.client_address_index", "get_ip_address(deref(qr.client_address_index))"));
+  ("qr", ("client_port", "", "qr.client_port"));
+  ("qr", ("transaction_id", "", "qr.transaction_id"));
+  ("qr", ("server_ip", "qr.qr_signature_index & get_qr_signature(deref(qr.qr_signature_index)).server_address_index", "get_ip_address(deref(get_qr_signature(deref(qr.qr_signature_index)).server_address_index))"));
+  ("qr", ("server_port", "qr.qr_signature_index", "get_qr_signature(deref(qr.qr_signature_index)).server_port"));
+  ("qr", ("qr_transport_flags", "qr.qr_signature_index", "get_qr_signature(deref(qr.qr_signature_index)).qr_transport_flags"));
+  ("qr", ("qr_type", "qr.qr_signature_index", "get_qr_signature(deref(qr.qr_signature_index)).qr_type"));
+  ("qr", ("qr_sig_flags", "qr.qr_signature_index", "get_qr_signature(deref(qr.qr_signature_index)).qr_sig_flags"));
+  ("qr", ("query_opcode", "qr.qr_signature_index", "get_qr_signature(deref(qr.qr_signature_index)).query_opcode"));
+  ("qr", ("qr_dns_flags", "qr.qr_signature_index", "get_qr_signature(deref(qr.qr_signature_index)).qr_dns_flags"));
+  ("qr", ("query_rcode", "qr.qr_signature_index", "get_qr_signature(deref(qr.qr_signature_index)).query_rcode"));
+  ("qr", ("query_classtype", "qr.qr_signature_index & get_qr_signature(deref(qr.qr_signature_index)).query_classtype_index", "get_classtype(deref(get_qr_signature(deref(qr.qr_signature_index)).query_classtype_index))"));
+  ("qr", ("query_qdcount", "qr.qr_signature_index", "get_qr_signature(deref(qr.qr_signature_index)).query_qdcount"));
+  ("qr", ("query_ancount", "qr.qr_signature_index", "get_qr_signature(deref(qr.qr_signature_index)).query_ancount"));
+  ("qr", ("query_nscount", "qr.qr_signature_index", "get_qr_signature(deref(qr.qr_signature_index)).query_nscount"));
+  ("qr", ("query_arcount", "qr.qr_signature_index", "get_qr_signature(deref(qr.qr_signature_index)).query_arcount"));
+  ("qr", ("query_edns_version", "qr.qr_signature_index", "get_qr_signature(deref(qr.qr_signature_index)).query_edns_version"));
+  ("qr", ("query_udp_size", "qr.qr_signature_index", "get_qr_signature(deref(qr.qr_signature_index)).query_udp_size"));
+  ("qr", ("query_opt_rdata", "qr.qr_signature_index & get_qr_signature(deref(qr.qr_signature_index)).query_opt_rdata_index", "get_name_rdata(deref(get_qr_signature(deref(qr.qr_signature_index)).query_opt_rdata_index))"));
+  ("qr", ("response_rcode", "qr.qr_signature_index", "get_qr_signature(deref(qr.qr_signature_index)).response_rcode"));
+  ("qr", ("client_hoplimit", "", "qr.client_hoplimit"));
+  ("qr", ("response_delay", "", "qr.response_delay"));
+  ("qr", ("query_name", "qr.query_name_index", "get_name_rdata(deref(qr.query_name_index))"));
+  ("qr", ("query_size", "", "qr.query_size"));
+  ("qr", ("response_size", "", "qr.response_size"));
+  ("qr", ("bailiwick", "qr.response_processing_data & qr.response_processing_data->bailiwick_index", "get_name_rdata(deref(qr.response_processing_data->bailiwick_index))"));
+  ("qr", ("processing_flags", "qr.response_processing_data", "qr.response_processing_data->processing_flags"));
+  ("qr", ("query_questions", "qr.query_extended & qr.query_extended->question_index", "fill_generic_q_list(get_question_list(deref(qr.query_extended->question_index)))"));
+  ("qr", ("query_answers", "qr.query_extended & qr.query_extended->answer_index", "fill_generic_rr_list(get_rr_list(deref(qr.query_extended->answer_index)))"));
+  ("qr", ("query_authority", "qr.query_extended & qr.query_extended->authority_index", "fill_generic_rr_list(get_rr_list(deref(qr.query_extended->authority_index)))"));
+  ("qr", ("query_additional", "qr.query_extended & qr.query_extended->additional_index", "fill_generic_rr_list(get_rr_list(deref(qr.query_extended->additional_index)))"));
+  ("qr", ("response_questions", "qr.response_extended & qr.response_extended->question_index", "fill_generic_q_list(get_question_list(deref(qr.response_extended->question_index)))"));
+  ("qr", ("response_answers", "qr.response_extended & qr.response_extended->answer_index", "fill_generic_rr_list(get_rr_list(deref(qr.response_extended->answer_index)))"));
+  ("qr", ("response_authority", "qr.response_extended & qr.response_extended->authority_index", "fill_generic_rr_list(get_rr_list(deref(qr.response_extended->authority_index)))"));
+  ("qr", ("response_additional", "qr.response_extended & qr.response_extended->additional_index", "fill_generic_rr_list(get_rr_list(deref(qr.response_extended->additional_index)))"));
+  ("qr", ("asn", "", "qr.asn"));
+  ("qr", ("country_code", "", "qr.country_code"));
+  ("qr", ("round_trip_time", "", "qr.round_trip_time"));
+  ("aec", ("ae_type", "", "aec.ae_type"));
+  ("aec", ("ae_code", "", "aec.ae_code"));
+  ("aec", ("ae_transport_flags", "", "aec.ae_transport_flags"));
+  ("aec", ("ip_address", "", "get_ip_address(aec.ae_address_index)"));
+  ("aec", ("ae_count", "", "aec.ae_count"));
+  ("mm", ("ts", "", "mm.time_offset"));
+  ("mm", ("client_ip", "mm.client_address_index", "get_ip_address(deref(mm.client_address_index))"));
+  ("mm", ("client_port", "", "mm.client_port"));
+  ("mm", ("server_ip", "mm.message_data_index & get_malformed_message_data(deref(mm.message_data_index)).server_address_index", "get_ip_address(deref(get_malformed_message_data(deref(mm.message_data_index)).server_address_index))"));
+  ("mm", ("server_port", "mm.message_data_index", "get_malformed_message_data(deref(mm.message_data_index)).server_port"));
+  ("mm", ("mm_transport_flags", "mm.message_data_index", "get_malformed_message_data(deref(mm.message_data_index)).mm_transport_flags"));
+  ("mm", ("mm_payload", "mm.message_data_index", "get_malformed_message_data(deref(mm.message_data_index)).mm_payload"));
+  ("qlist", ("name", "for each", "get_name_rdata(get_question(elem).name_index)"));
+  ("qlist", ("classtype", "for each", "get_classtype(get_question(elem).classtype_index)"));
+  ("rrlist", ("name", "for each", "get_name_rdata(get_rr(elem).name_index)"));
+  ("rrlist", ("classtype", "for each", "get_classtype(get_rr(elem).classtype_index)"));
+  ("rrlist", ("ttl", "for each", "get_rr(elem).ttl"));
+  ("rrlist", ("rdata", "for each & get_rr(elem).rdata_index", "get_name_rdata(deref(get_rr(elem).rdata_index))"))].
+
+(* the accessors are what the model was written after; and read_generic_qr fills every member of the generic query/response exactly once,
+   in declaration order *)
+Theorem FT_generic_readers :
+  gen_generic_readers = generic_readers_expected /\
+  map (fun r => fst (fst (snd r))) (filter (fun r => String.eqb (fst r) "qr") gen_generic_readers) = gen_generic_qr_members.
+Proof. split; reflexivity. Qed.
+Print Assumptions FT_generic_readers.
